@@ -21,7 +21,13 @@ pub enum Script {
     /// anchor / probe / sentinel cycle: anchor = strictly better (always accepted), probe =
     /// anchor - d (fate is the observation), sentinel = undefined (certain rejection).
     /// d for the probe in inner loop l is `d[min(l, len-1)]`; `inner` proposals per loop.
-    Probe { d: Vec<f64>, inner: u64 },
+    /// `jam`: inner loops [from, to) in which every score is undefined (all proposals rejected)
+    Probe {
+        d: Vec<f64>,
+        inner: u64,
+        #[serde(default)]
+        jam: Vec<(u64, u64)>,
+    },
     /// smooth landscape: -(sum (x_i - c_i)^2), undefined when x_0 > wall
     Bowl { centre: Vec<f64>, wall: Option<f64> },
     /// like Pattern, but each letter is drawn by the state's own generator:
@@ -140,12 +146,13 @@ impl State for Scripted {
                     };
                     letter(&mut st, l, *gap)
                 }
-                Script::Probe { d, inner } => {
+                Script::Probe { d, inner, jam } => {
                     let prop = call - 1; // 0-based proposal index
                     let l = (prop / inner.max(&1)) as usize;
                     let dl = d[l.min(d.len() - 1)];
                     let dmax = d.iter().cloned().fold(0., f64::max);
-                    match prop % 3 {
+                    let jammed = jam.iter().any(|(a, b)| (l as u64) >= *a && (l as u64) < *b);
+                    match if jammed { 2 } else { prop % 3 } {
                         0 => {
                             st.anchor += 4. * dmax;
                             (Some(st.anchor), 'A')
